@@ -16,11 +16,15 @@ def flavour_batch():
     pat = bytes((i * 7 + 3) & 0xff for i in range(256))
     for base in (0, 65536 - 128, 65536, 2 * 65536 - 256):
         m.datas.append(('active', 0, i32_const(base), pat))
+    # signalling NaNs in memory (f32 at 40, f64 at 48): float loads return the bits as they are
+    import struct
+    m.datas.append(('active', 0, i32_const(40), struct.pack('<IIQ', 0x7fa00001, 0xff800001, 0xfff0000000000001)))
     cases = []
     offsets = (0, 1, 4, 65535, 65536)
-    bases = [0, 1, 2, 3, 7, 65536 - 8, 65536 - 4, 65536 - 3, 65536 - 2, 65536 - 1, 65536, 65536 + 5, 2 * 65536 - 8, 2 * 65536 - 4, 2 * 65536 - 2, 2 * 65536 - 1, 0xffffffff, 0xffff0000]
-    vals32 = [0x11223344, 0xffffffff, 0x80000000, 0x7fffffff, 0, 0x80, 0x8000, 0xff7f]
-    vals64 = [0x1122334455667788, 0xffffffffffffffff, 0x8000000000000000, 0x7fffffffffffffff, 0, 0x80, 0x8000, 0x80000000, 0xffffffff7fffffff]
+    bases = [0, 1, 2, 3, 7, 40, 44, 48, 65536 - 8, 65536 - 4, 65536 - 3, 65536 - 2, 65536 - 1, 65536, 65536 + 5, 2 * 65536 - 8, 2 * 65536 - 4, 2 * 65536 - 2, 2 * 65536 - 1, 0xffffffff, 0xffff0000]
+    # incl. signalling-NaN bit patterns of both signs: f32.store / f64.store (and the loads) move bits, they do not convert
+    vals32 = [0x11223344, 0xffffffff, 0x80000000, 0x7fffffff, 0, 0x80, 0x8000, 0xff7f, 0x7fa00000, 0xff800001]
+    vals64 = [0x1122334455667788, 0xffffffffffffffff, 0x8000000000000000, 0x7fffffffffffffff, 0, 0x80, 0x8000, 0x80000000, 0xffffffff7fffffff, 0x7ff4000000000000, 0xfff0000000000001]
     inputsets = [('explicit', [(b,) for b in bases]),
                  ('explicit', [(b, v) for b in bases for v in vals32]),
                  ('explicit', [(b, v) for b in bases for v in vals64])]
